@@ -1,0 +1,149 @@
+//go:build verif
+
+package dastard
+
+// Verification hooks for property C09 (build tag "verif" only): a card-less LanceroSource that has gone
+// through PrepareChannels and PrepareRun, so that LanceroSource.SetCoupling and AnySource.ProcessSegments
+// run on the same broker. No logic of dastard is changed or duplicated here beyond the block plumbing
+// of VerifBench.Block.
+
+import (
+	"encoding/json"
+	"time"
+
+	"github.com/spf13/viper"
+)
+
+// VerifC09Lancero is a prepared but never started LanceroSource without any card.
+type VerifC09Lancero struct {
+	LS        *LanceroSource
+	recChan   chan []*DataRecord
+	sumChan   chan []*DataRecord
+	stopDrain chan struct{}
+}
+
+// VerifC09NewLancero builds a LanceroSource of one pretend device with ncols x nrows (2*ncols*nrows channels:
+// err, fb, err, fb ...), fills in what Sample() would have learned from the card, and runs PrepareChannels
+// and PrepareRun as Start would.
+func VerifC09NewLancero(ncols, nrows, npre, nsamp int, sampleRate float64) (*VerifC09Lancero, error) {
+	verifBenchMu.Lock()
+	b := &VerifC09Lancero{}
+	b.recChan = make(chan []*DataRecord, 1<<16)
+	b.sumChan = make(chan []*DataRecord, 1<<16)
+	PubRecordsChan = b.recChan
+	PubSummariesChan = b.sumChan
+	b.stopDrain = make(chan struct{})
+	go func() {
+		for {
+			select {
+			case m := <-clientMessageChan:
+				json.Marshal(m.state)
+			case <-b.stopDrain:
+				return
+			}
+		}
+	}()
+	viper.Set("trigger", []FullTriggerState{})
+
+	ls := new(LanceroSource)
+	ls.name = "Lancero"
+	ls.nsamp = 1
+	ls.devices = make(map[int]*LanceroDevice)
+	ls.channelsPerPixel = 2
+	dev := &LanceroDevice{devnum: 0, nrows: nrows, ncols: ncols, lsync: 40, clockMHz: 125}
+	ls.devices[0] = dev
+	ls.ncards = 1
+	ls.active = []*LanceroDevice{dev}
+	ls.firstRowChanNum = 1
+	// what Sample() sets after reading the card
+	ls.nchan = ncols * nrows * 2
+	ls.sampleRate = sampleRate
+	ls.samplePeriod = time.Duration(roundint(1e9 / sampleRate))
+	ls.updateChanOrderMap()
+	ls.voltsPerArb = make([]float32, ls.nchan)
+	for i := 0; i < ls.nchan; i += 2 {
+		ls.voltsPerArb[i] = 1.0 / (4096. * float32(ls.nsamp))
+	}
+	for i := 1; i < ls.nchan; i += 2 {
+		ls.voltsPerArb[i] = 1. / 65535.0
+	}
+	ls.mixRequests = make(chan *MixFractionObject, 10)
+	ls.currentMix = make(chan []float64, 10)
+	if err := ls.PrepareChannels(); err != nil {
+		b.Close()
+		return nil, err
+	}
+	if err := ls.PrepareRun(npre, nsamp); err != nil {
+		b.Close()
+		return nil, err
+	}
+	b.LS = ls
+	return b, nil
+}
+
+// Close releases the bench.
+func (b *VerifC09Lancero) Close() {
+	close(b.stopDrain)
+	PubRecordsChan = nil
+	PubSummariesChan = nil
+	verifBenchMu.Unlock()
+}
+
+// Source returns the underlying AnySource.
+func (b *VerifC09Lancero) Source() *AnySource { return &b.LS.AnySource }
+
+// SetCoupling calls LanceroSource.SetCoupling.
+func (b *VerifC09Lancero) SetCoupling(status int) error { return b.LS.SetCoupling(CouplingStatus(status)) }
+
+// Block runs one ProcessSegments cycle (same plumbing as VerifBench.Block).
+func (b *VerifC09Lancero) Block(chans [][]uint16, signed []bool, firstFrame, firstTimeNs, periodNs int64) VerifBlockResult {
+	ds := b.Source()
+	block := new(dataBlock)
+	block.segments = make([]DataSegment, len(chans))
+	for c := range chans {
+		raw := make([]RawType, len(chans[c]))
+		for i, v := range chans[c] {
+			raw[i] = RawType(v)
+		}
+		block.segments[c] = DataSegment{rawData: raw, framesPerSample: 1,
+			firstFrameIndex: FrameIndex(firstFrame), firstTime: time.Unix(0, firstTimeNs),
+			framePeriod: time.Duration(periodNs), signed: signed[c], voltsPerArb: ds.voltsPerArb[c]}
+	}
+	if len(chans) > 0 {
+		block.nSamp = len(chans[0])
+	}
+	var res VerifBlockResult
+	if err := ds.ProcessSegments(block); err != nil {
+		res.Err = err.Error()
+	}
+	res.Primaries = make([][]int64, len(ds.processors))
+	res.Records = make([][]VerifRecord, len(ds.processors))
+	for c, dsp := range ds.processors {
+		for _, f := range dsp.lastTrigList.frames {
+			res.Primaries[c] = append(res.Primaries[c], int64(f))
+		}
+	}
+	for {
+		select {
+		case recs := <-b.recChan:
+			for _, r := range recs {
+				res.Records[r.channelIndex] = append(res.Records[r.channelIndex], verifRecord(r))
+			}
+			continue
+		default:
+		}
+		break
+	}
+	for {
+		select {
+		case <-b.sumChan:
+			continue
+		default:
+		}
+		break
+	}
+	return res
+}
+
+// VerifBrokerCount exposes the broker's connection counter (the one that gates Distribute's fast path).
+func (ds *AnySource) VerifBrokerCount() int { return ds.broker.nconnections }
